@@ -206,12 +206,14 @@ func (pool *BlockPool) RedoRequest(height int64) {
 	request := pool.requesters[height]
 	pool.mtx.Unlock()
 
-	if request.block == nil {
-		gcmn.PanicSanity("Expected block to be non-nil")
+	if request == nil || request.getBlock() == nil {
+		// The peer that served the block has gone in the meantime (removePeer() reset the
+		// requester): the request is already being made again.
+		return
 	}
 	// RemovePeer will redo all requesters associated with this peer.
 	// TODO: record this malfeasance
-	pool.RemovePeer(request.peerID)
+	pool.RemovePeer(request.getPeerID())
 }
 
 // TODO: ensure that blocks come in order for each peer.
